@@ -34,7 +34,7 @@ inductive DStmt where
   | callS (t : DTree)
   | branch (t : DTree)
   | ret (t : DTree)
-  | jret (t : DTree)
+  | jret (ty : Ty) (t : DTree)
   /-- the evaluation of an extension leaf (an event in evaluation order, like a call) -/
   | extS (tag : Nat)
   deriving Inhabited, Repr
@@ -138,7 +138,7 @@ end
 
 def DStmt.tree? : DStmt → Option DTree
   | .param _ | .extS _ => none
-  | .letD _ _ t | .assign _ t | .callS t | .branch t | .ret t | .jret t => some t
+  | .letD _ _ t | .assign _ t | .callS t | .branch t | .ret t | .jret _ t => some t
 
 def DStmt.render (f : DTree → String) : DStmt → String
   | .param d => s!"param v{d}"
@@ -147,7 +147,7 @@ def DStmt.render (f : DTree → String) : DStmt → String
   | .callS t => s!"do {f t}"
   | .branch t => s!"branch {f t}"
   | .ret t => s!"return {f t}"
-  | .jret t => s!"jump-return {f t}"
+  | .jret _ t => s!"jump-return {f t}"
   | .extS t => s!"eval ext{t}"
 
 /-- resolution facts of a statement list (C03) -/
@@ -158,7 +158,7 @@ def DStmt.refs : DStmt → List String
   | .callS t => t.refs
   | .branch t => t.refs
   | .ret t => t.refs ++ ["return"]
-  | .jret t => t.refs ++ ["jump-return"]
+  | .jret _ t => t.refs ++ ["jump-return"]
   | .extS _ => []
 
 /-! ### The denotation of a stack -/
@@ -217,7 +217,7 @@ def abstractStep (s : AbsSt) (i : Instr) : AbsSt :=
   | .ifCondExpr x _ _ => s.emit (.branch (s.res x))
   | .ifCondLogic _ _ r => s.emit (.branch (s.reg r))
   | .fnReturn x | .fnReturnWithLabel x => s.emit (.ret (s.res x))
-  | .jumpFnReturn x => s.emit (.jret (s.res x))
+  | .jumpFnReturn x => s.emit (.jret x.ty (s.res x))
   | _ => s
 
 def AbsSt.init : AbsSt := { env := [], decls := [], out := [] }
@@ -327,8 +327,10 @@ def specIfCond (ref : Bool) (c : IfCond) (s : SpecSt) : SpecSt :=
   | .single e => (s.emits (specExpr ref s e).1).emit (.branch (specExpr ref s e).2)
   | .logic lc => (s.emits (specLogic ref s lc).1).emit (.branch (specLogic ref s lc).2)
 
-def specJret (ref : Bool) (e : Expr) (s : SpecSt) : SpecSt :=
-  (s.emits (specExpr ref s e).1).emit (.jret (specExpr ref s e).2)
+/-- a return nested in an if / loop body: the events of its expression, then the jump to the
+function's return carrying the type the rule checker computes for the expression -/
+def specJret (ref : Bool) (g : RGlobals) (e : Expr) (s : SpecSt) : SpecSt :=
+  (s.emits (specExpr ref s e).1).emit (.jret ((checkExpr g s.tscope e).2.getD (.prim .none)) (specExpr ref s e).2)
 
 def specRet (ref : Bool) (e : Expr) (s : SpecSt) : SpecSt :=
   (s.emits (specExpr ref s e).1).emit (.ret (specExpr ref s e).2)
@@ -352,7 +354,7 @@ def specIfBody (ref : Bool) (g : RGlobals) : List IfBodyStmt → SpecSt → Spec
   | .call c :: tl, s => specIfBody ref g tl (specCallS ref c s)
   | .ifS i :: tl, s => specIfBody ref g tl (specIf ref g i s)
   | .loop b :: tl, s => specIfBody ref g tl (specLoopBody ref g b s.push).pop
-  | .ret e :: tl, s => specIfBody ref g tl (specJret ref e s)
+  | .ret e :: tl, s => specIfBody ref g tl (specJret ref g e s)
 def specIfLoopBody (ref : Bool) (g : RGlobals) : List IfLoopStmt → SpecSt → SpecSt
   | [], s => s
   | .letB b :: tl, s => specIfLoopBody ref g tl (specLet ref g b s)
@@ -360,7 +362,7 @@ def specIfLoopBody (ref : Bool) (g : RGlobals) : List IfLoopStmt → SpecSt → 
   | .call c :: tl, s => specIfLoopBody ref g tl (specCallS ref c s)
   | .ifS i :: tl, s => specIfLoopBody ref g tl (specIf ref g i s)
   | .loop b :: tl, s => specIfLoopBody ref g tl (specLoopBody ref g b s.push).pop
-  | .ret e :: tl, s => specIfLoopBody ref g tl (specJret ref e s)
+  | .ret e :: tl, s => specIfLoopBody ref g tl (specJret ref g e s)
   | .brk :: tl, s => specIfLoopBody ref g tl s
   | .cont :: tl, s => specIfLoopBody ref g tl s
 def specLoopBody (ref : Bool) (g : RGlobals) : List LoopStmt → SpecSt → SpecSt
@@ -370,7 +372,7 @@ def specLoopBody (ref : Bool) (g : RGlobals) : List LoopStmt → SpecSt → Spec
   | .call c :: tl, s => specLoopBody ref g tl (specCallS ref c s)
   | .ifS i :: tl, s => specLoopBody ref g tl (specIf ref g i s)
   | .loop b :: tl, s => specLoopBody ref g tl (specLoopBody ref g b s.push).pop
-  | .ret e :: tl, s => specLoopBody ref g tl (specJret ref e s)
+  | .ret e :: tl, s => specLoopBody ref g tl (specJret ref g e s)
   | .brk :: tl, s => specLoopBody ref g tl s
   | .cont :: tl, s => specLoopBody ref g tl s
 end
